@@ -456,6 +456,12 @@ def judge_selection(ctx, flow, caller, node, cand, label):
     bases = frozenset().union(*[x[2] if x[0] == "meth" and x[1] in ("get", "items", "values") and isinstance(x[2], frozenset) else frozenset([x]) for x in bases]) if bases else bases
     from_index = any((x[0] == "param" and x[2] in ("contents",)) or (x[0] == "ext" and x[1] in ("os.listdir", "os.walk", "os.scandir")) or (x[0] == "attr" and x[2] == "contents")
                      for x in walk_terms(bases))
+    if loop is not None and not from_index and any(x[0] in ("rec", "unknown") or (x[0] in ("dict", "list") and not x[1]) for x in walk_terms(bases)):
+        # a container that starts empty and is filled where the origin terms do not follow (handed to a function that adds
+        # to it, built by a recursion): what it holds is not known, so neither verdict is possible
+        ctx.undecided("C14.3", caller, "the loop that binds the copy source %r iterates over %s, a container filled where the origin terms do not follow; "
+                      "whether it is the search index was not decided" % (cand, show(it_term, maxdepth=2)[:80]), node)
+        return
     if loop is None or not from_index:
         ctx.violated("C14.3", caller, "the copy source %r is not drawn from the search index: %s" % (
             cand, "no enclosing candidate loop binds it" if loop is None else "the loop iterates over " + show(it_term, maxdepth=2)[:80]), node)
@@ -525,7 +531,7 @@ def judge_selection(ctx, flow, caller, node, cand, label):
             if not res:
                 continue
             # when the hashes differ the atom is False (an equality) / True (an inequality): the copy must then be out of reach
-            if not blocked(lambda x, a=a, res=res: (res == "ne") if x is a else None):
+            if not blocked(lambda x, a=a, res=res: (res == "ne") if x is a else C.nonempty_atom(caller, x)):
                 if any(b is d for d, _ in deps):
                     why = "the controlling test %s does not depend on the hash comparison alone (it can pass when the hashes differ)" % norm(t)
                 continue
